@@ -36,9 +36,11 @@ Record strop_cfg := {
   sc_collapse : bool;                      (* _collapse_whitespace_when_encoding *)
   sc_strop_handler : handler;              (* _stropping_failure_handler *)
   sc_enc_handler : handler;                (* _encoding_failure_handler *)
-  sc_reverify : bool                       (* does strop pass its result through the final re-verification
+  sc_reverify : bool;                      (* does strop pass its result through the final re-verification
                                               (`return self._reverified(stropped, token_type_lower)`: the three dry-run
                                               checks once more, RuntimeError if one fails) or just `return stropped`? *)
+  sc_full_check : bool                     (* does _reverified also apply every `all`/type encoding rule with
+                                              pattern.search to the WHOLE token (fix of F-STROP-ILLEGAL-AFFIX)? *)
 }.
 
 Fixpoint lookup (m : list (str * list re)) (k : str) : option (list re) :=
@@ -128,13 +130,13 @@ Inductive tres := TOk (t : str) | TKeyError | TRuntimeError.
 (* steps of TokenEncoder.strop (see run_steps below) *)
 Inductive xform := XEncode | XKeyword | XPattern.      (* self._encode | self._strop_by_keyword | self._strop_by_pattern *)
 Inductive hsel := HStropping | HEncoding.               (* self._stropping_failure_handler | self._encoding_failure_handler *)
-Inductive pstep := PApply (x : xform) | PCheck (x : xform) (h : hsel) | PReverify (xs : list xform).
+Inductive pstep := PApply (x : xform) | PCheck (x : xform) (h : hsel) | PReverify (xs : list xform) (full : bool).
 
 (* the step list Gen/Strop.v's `strop` was written for *)
-Definition model_pipeline (reverify : bool) : list pstep :=
+Definition model_pipeline (reverify full : bool) : list pstep :=
   [PApply XEncode; PApply XKeyword; PApply XPattern;
    PCheck XPattern HStropping; PCheck XKeyword HStropping; PCheck XEncode HEncoding]
-  ++ (if reverify then [PReverify [XPattern; XKeyword; XEncode]] else []).
+  ++ (if reverify then [PReverify [XPattern; XKeyword; XEncode] full] else []).
 
 Section Strop.
   Variable u : uni.          (* Python's \s \d \w tables (Gen_Uni.py_uni) *)
@@ -256,10 +258,17 @@ Section Strop.
      three dry-run checks; whichever fails, the exception is a RuntimeError *)
   Definition dry_ok (r : tres) : bool := match r with TRuntimeError => false | _ => true end.
 
+  (* for type_key in ("all", type_lower): for p in rules.get(type_key, []): if p.search(stropped): raise RuntimeError *)
+  Definition rules_for (ty : str) : list re := match lookup (sc_rules cfg) ty with Some rs => rs | None => [] end.
+  Definition full_ok (ty stropped : str) : bool :=
+    forallb (fun r => negb (re_test u r stropped)) (rules_for ty_all)
+    && forallb (fun r => negb (re_test u r stropped)) (rules_for ty).
+
   Definition reverified (ty stropped : str) : res :=
     if dry_ok (do_for_type_and_all strop_by_pattern stropped ty true)
        && dry_ok (do_for_type_and_all strop_by_keyword stropped ty true)
        && dry_ok (do_for_type_and_all encode stropped ty true)
+       && (negb (sc_full_check cfg) || full_ok ty stropped)
     then Ok stropped else ErrRuntime.
 
   (* TokenEncoder.strop(token, token_type) *)
@@ -317,8 +326,9 @@ Section Strop.
         | Ok t => run_steps rest ty t
         | e => e
         end
-    | PReverify xs :: rest =>                       (* return self.<m>(cur, type_lower); <m>: the dry checks xs, return cur *)
-        if forallb (fun x => dry_ok (do_for_type_and_all (xf x) cur ty true)) xs
+    | PReverify xs full :: rest =>                  (* return self.<m>(cur, type_lower); <m>: the dry checks xs, [the
+                                                       whole-token loop over the encoding rules,] return cur *)
+        if forallb (fun x => dry_ok (do_for_type_and_all (xf x) cur ty true)) xs && (negb full || full_ok ty cur)
         then run_steps rest ty cur else ErrRuntime
     end.
 
@@ -366,6 +376,13 @@ Fixpoint has_dunder (t : str) : bool :=
   | a :: ((b :: _) as t') => ((a =? 95) && (b =? 95)) || has_dunder t'
   | _ => false
   end.
+
+(* the same configuration in a tree without the whole-token loop *)
+Definition no_full (cfg : strop_cfg) : strop_cfg :=
+  {| sc_reserved := sc_reserved cfg; sc_patterns := sc_patterns cfg; sc_rules := sc_rules cfg; sc_prefix := sc_prefix cfg;
+     sc_suffix := sc_suffix cfg; sc_enc_prefix := sc_enc_prefix cfg; sc_ws_char := sc_ws_char cfg; sc_collapse := sc_collapse cfg;
+     sc_strop_handler := sc_strop_handler cfg; sc_enc_handler := sc_enc_handler cfg; sc_reverify := sc_reverify cfg;
+     sc_full_check := false |}.
 
 (* ---------------------------------------------------------------------------------- *)
 (* functools.lru_cache on TokenEncoder.strop                                           *)
